@@ -393,6 +393,22 @@ func ConstInt(v ssa.Value) (int64, bool) {
 		}
 		return k, true
 	}
+	// a byte of a constant string at a constant index (`mark[0]` with mark a string constant)
+	var sv, iv ssa.Value
+	switch x := v.(type) {
+	case *ssa.Index:
+		sv, iv = x.X, x.Index
+	case *ssa.Lookup:
+		sv, iv = x.X, x.Index
+	}
+	if sv != nil {
+		if str, ok := ConstString(sv); ok {
+			if k, ok := ConstInt(iv); ok && k >= 0 && k < int64(len(str)) {
+				return int64(str[k]), true
+			}
+		}
+		return 0, false
+	}
 	c, ok := v.(*ssa.Const)
 	if !ok || c.Value == nil || c.Value.Kind() != constant.Int {
 		return 0, false
